@@ -173,7 +173,11 @@ func startWatchdog() {
 			if now.Sub(lastMem) > 200*time.Millisecond {
 				lastMem = now
 				runtime.ReadMemStats(&ms)
-				if ms.HeapAlloc > 3<<30 {
+				if d != heapFor {
+					// first look at this evaluation: what the process already holds is not its doing
+					heapFor, heapBase = d, ms.HeapAlloc
+				}
+				if ms.HeapAlloc > heapBase+(3<<30) {
 					evaluator.VerifExhaust()
 				}
 			}
@@ -182,6 +186,29 @@ func startWatchdog() {
 }
 
 var lastMem time.Time
+var heapFor time.Time // deadline of the evaluation heapBase belongs to
+var heapBase uint64
+
+// budgetEvents counts the evaluations of this process that ended because a budget ran out (steps, depth, wall clock or
+// memory): such an evaluation is inconclusive, and so is every verdict that was derived from it.
+var budgetEvents atomic.Int64
+
+// BudgetEvents returns the number of evaluations that ran out of budget so far.
+func BudgetEvents() int64 { return budgetEvents.Load() }
+
+// Guard runs a judgement and drops its verdict when one of the evaluations made during it ran out of budget
+// (a budget hit means "inconclusive", never a violation). dropped is called when that happens.
+func Guard(judge func() (sig, detail string), dropped func()) (string, string) {
+	before := budgetEvents.Load()
+	sig, detail := judge()
+	if sig != "" && budgetEvents.Load() != before {
+		if dropped != nil {
+			dropped()
+		}
+		return "", ""
+	}
+	return sig, detail
+}
 
 // EvalNode evaluates an already built AST node in a fresh scope (or o.Env) under the budget.
 func (in *Interp) EvalNode(node ast.Node, o Opts) (out Outcome) {
@@ -216,6 +243,7 @@ func (in *Interp) EvalNode(node ast.Node, o Opts) (out Outcome) {
 			if fuel {
 				// a panic after the budget ran out is not judged
 				out.Kind = Fuel
+				budgetEvents.Add(1)
 				return
 			}
 			out.Kind = HostPanic
@@ -229,6 +257,7 @@ func (in *Interp) EvalNode(node ast.Node, o Opts) (out Outcome) {
 	out.Stdout = stdout.String()
 	if fuel {
 		out.Kind = Fuel
+		budgetEvents.Add(1)
 		return
 	}
 	out.Obj = res
